@@ -15,7 +15,6 @@ import (
 	"github.com/icon-project/goloop/common/db"
 	"github.com/icon-project/goloop/common/trie"
 	"github.com/icon-project/goloop/common/trie/trie_manager"
-	"verif/harness/hxlib"
 )
 
 func Sha3(b []byte) []byte {
@@ -79,9 +78,40 @@ func (t *Table) Coq() string {
 	sort.Strings(ks)
 	items := make([]string, len(ks))
 	for i, k := range ks {
-		items[i] = "(" + hxlib.CoqBytes([]byte(k)) + "," + hxlib.CoqBytes(Sha3([]byte(k))) + ")"
+		items[i] = "(" + Bx([]byte(k)) + "," + Bx(Sha3([]byte(k))) + ")"
 	}
 	return "[" + strings.Join(items, ";\n  ") + "]"
+}
+
+// Bx prints a byte string as the compact literal `(bx len [w;...])` of
+// Run_TrieTbl.v: big-endian 7-byte chunks as 63-bit integers.
+func Bx(b []byte) string {
+	if len(b) == 0 {
+		return "[]"
+	}
+	var sb strings.Builder
+	fmt.Fprintf(&sb, "(bx %d%%nat [", len(b))
+	for i := 0; i < len(b); i += 7 {
+		j := i + 7
+		if j > len(b) {
+			j = len(b)
+		}
+		var w uint64
+		for _, x := range b[i:j] {
+			w = w<<8 | uint64(x)
+		}
+		if i > 0 {
+			sb.WriteByte(';')
+		}
+		fmt.Fprintf(&sb, "%d", w)
+	}
+	sb.WriteString("]%uint63)")
+	return sb.String()
+}
+
+// Preamble of the cases files of the trie harnesses.
+func Preamble(id string) string {
+	return "From Coq Require Import Uint63.\nFrom GoloopRun Require Import Run_TrieTbl Run_" + id + "."
 }
 
 type KV struct{ K, V []byte }
@@ -89,7 +119,7 @@ type KV struct{ K, V []byte }
 func CoqKVs(l []KV) string {
 	items := make([]string, len(l))
 	for i, kv := range l {
-		items[i] = "(" + hxlib.CoqBytes(kv.K) + "," + hxlib.CoqBytes(kv.V) + ")"
+		items[i] = "(" + Bx(kv.K) + "," + Bx(kv.V) + ")"
 	}
 	return "[" + strings.Join(items, "; ") + "]"
 }
@@ -98,13 +128,13 @@ func CoqOptBytes(b []byte) string {
 	if b == nil {
 		return "None"
 	}
-	return "(Some " + hxlib.CoqBytes(b) + ")"
+	return "(Some " + Bx(b) + ")"
 }
 
 func CoqBytesList(l [][]byte) string {
 	items := make([]string, len(l))
 	for i, b := range l {
-		items[i] = hxlib.CoqBytes(b)
+		items[i] = Bx(b)
 	}
 	return "[" + strings.Join(items, "; ") + "]"
 }
@@ -189,4 +219,70 @@ func Rebuild(ref map[string][]byte, r *rand.Rand) (trie.Snapshot, *RecDB) {
 	s.Hash()
 	s.Flush()
 	return s, d
+}
+
+// ---------- generators shared by c17 / c18 ----------
+
+// GenKeys: 3-14 keys of 0-4 bytes over a 2-4 symbol alphabet (shared prefixes) and
+// 32-byte keys that differ from a common base in one nibble.
+func GenKeys(r *rand.Rand) [][]byte {
+	full := []byte{0x00, 0x01, 0x0f, 0x10, 0x11, 0x12, 0x1f, 0xa0, 0xab, 0xff}
+	na := 2 + r.Intn(3)
+	alpha := make([]byte, na)
+	for i := range alpha {
+		alpha[i] = full[r.Intn(len(full))]
+	}
+	base32 := make([]byte, 32)
+	r.Read(base32)
+	n := 3 + r.Intn(12)
+	seen := map[string]bool{}
+	var keys [][]byte
+	for tries := 0; len(keys) < n && tries < 200; tries++ {
+		var k []byte
+		switch r.Intn(9) {
+		case 0, 1:
+			k = append([]byte(nil), base32...)
+			pos := []int{0, 1, 31, 32, 61, 62, 63}[r.Intn(7)]
+			nib := byte(r.Intn(16))
+			if pos%2 == 0 {
+				k[pos/2] = k[pos/2]&0x0f | nib<<4
+			} else {
+				k[pos/2] = k[pos/2]&0xf0 | nib
+			}
+		default:
+			l := r.Intn(5)
+			k = make([]byte, l)
+			for i := range k {
+				k[i] = alpha[r.Intn(na)]
+			}
+		}
+		if !seen[string(k)] {
+			seen[string(k)] = true
+			keys = append(keys, k)
+		}
+	}
+	return keys
+}
+
+// GenVal: 1-70 bytes, concentrated around the 32-byte inlining threshold.
+func GenVal(r *rand.Rand) []byte {
+	var l int
+	switch x := r.Intn(20); {
+	case x < 2:
+		l = 1
+	case x < 10:
+		l = 1 + r.Intn(40)
+	case x < 17:
+		l = 24 + r.Intn(12)
+	case x < 19:
+		l = 1 + r.Intn(6)
+	default:
+		l = 50 + r.Intn(20)
+	}
+	v := make([]byte, l)
+	r.Read(v)
+	if l == 1 && r.Intn(2) == 0 {
+		v[0] &= 0x7f
+	}
+	return v
 }
